@@ -105,3 +105,12 @@ Theorem C12_source_evict_metrics :
   metric_field fn_shardedMap_evictMostExpired = Some "i.E" /\ metric_field fn_shardedMap_evictLeastCounter = Some "i.C".
 Proof. exact tie_evict_metrics. Qed.
 Print Assumptions C12_source_evict_metrics.
+
+(* the backends install evictMostExpired, or evictLeastCounter when the strategy is not EvictMostExpired, as Trait.Evict
+   (together with their own deleteExpired and Len) *)
+Theorem C12_source_strategy_selection :
+  strategy_selection (gf_body fn_NewShardedMap) = Some ("c.evictMostExpired", "c.evictLeastCounter", true) /\
+  strategy_selection (gf_body fn_NewSyncMap) = Some ("c.evictMostExpired", "c.evictLeastCounter", true) /\
+  strategy_selection (gf_body fn_NewShardedMapOf) = Some ("c.evictMostExpired", "c.evictLeastCounter", true).
+Proof. exact tie_strategy_selection. Qed.
+Print Assumptions C12_source_strategy_selection.
